@@ -41,8 +41,10 @@ C02, what the capstones (`Props/C02Capstone.lean`) still excluded.
    header protection with the wrong key, `get_full_packet_number` stores the garbage packet number as the largest of the
    client's application space BEFORE the AEAD check rejects the packet (`zero_rtt_rejected_poisons_pn`), and every later
    1-RTT packet of the client is reconstructed next to it and lost: `harness/c02_0rtt_replay.py` (real tool, real
-   cryptography) — reported as a defect candidate. PARTIAL: the full `quic_connection_exact_0rtt` (0-RTT packets anywhere in
-   the interleaved history) needs `EarlyKeyed` threaded through the handshake invariant; not done.
+   cryptography); kernel-checked witnesses `ExZr.zero_rtt_first_offered_suite_counterexample`,
+   `ExZr.zero_rtt_before_client_hello_counterexample`. The full statement is `quic_connection_exact_0rtt_statement` (a `def`,
+   NOT proved: 0-RTT packets anywhere in the interleaved history under `ZrPkOk`); proved is the step
+   `quic_connection_exact_0rtt_partial`; missing: `EarlyKeyed` threaded through the handshake invariant `HsSt`.
 
 Core Lean only.
 -/
@@ -1412,4 +1414,131 @@ theorem zero_rtt_first_offered_suite_counterexample :
   decide +kernel
 
 end ExZr
+/-! ### 0-RTT: the full statement (NOT proved; see `quic_connection_exact_0rtt_partial` for what is) -/
+section ZeroRttStatement
+variable (maskFn : Dissect.MaskFn) (H : Crypto.Prims) (Pc : Cipher.Prims) (info : Nat → Pipeline.Info)
+
+/-- a datagram of the interleaved history that may also carry 0-RTT packets: `base` as in `DgM`; the 0-RTT packets `zr`
+    (client only) stand after the first `pos` long-header packets of `base` (RFC 9000 §12.2 order: Initial, 0-RTT,
+    Handshake, 1-RTT) -/
+structure DgX where
+  base : DgM
+  zr : List PkH
+  pos : Nat
+
+def DgX.wire (L : SealLaws Pc) (dcid0 : Bytes) (sel selR : SuiteSel) (sh ch sa ca e : Bytes) (d : DgX) : Bytes :=
+  ((d.base.longs.take d.pos).map (pkWire H Pc L dcid0 sel sh ch)).flatten ++ (d.zr.map (zrWire H Pc L selR e)).flatten ++
+    ((d.base.longs.drop d.pos).map (pkWire H Pc L dcid0 sel sh ch)).flatten ++
+    (d.base.short.map (wireOf H Pc L sel .v1 (rfcGen (hashOf H sel.hash) sel.keyLen sa ca 0))).getD []
+
+/-- the routing header: that of the first packet on the wire -/
+def DgX.dcid (d : DgX) : Bytes :=
+  match d.base.longs.take d.pos, d.zr with
+  | [], q :: _ => q.x.dcid
+  | _, _ => d.base.dcid
+def DgX.ver (d : DgX) : MainLoop.Version := if d.base.longs = [] ∧ d.zr = [] then .unknown else .v1
+
+/-- the observer's bookkeeping after a 0-RTT packet: the client's application packet-number space, connection IDs issued -/
+def _root_.TLX.Props.C02Capstone.Trk.zr (t : Trk) (x : SPkt) : Trk :=
+  { t with tc := { t.tc with app := max t.tc.app x.pn }, cc := issue t.cc (newCids x.frames) }
+
+def _root_.TLX.Props.C02Capstone.Trk.dgx (t : Trk) (d : DgX) : Trk :=
+  let t1 := (d.zr.foldl (fun t q => t.zr q.x) (t.run (d.base.longs.take d.pos))).run (d.base.longs.drop d.pos)
+  match d.base.short with
+  | none => t1
+  | some o => t1.short o.x
+
+/-- **THE CONDITION under which the tool exports a 0-RTT packet** of a client that resumed a session of suite `selR` with
+    early secret `e`, relative to the bookkeeping `t` when the packet is reached:
+    `suite`  `tls_session.ciphersuite` — unset until the CRYPTO stream has completed the ClientHello, then the FIRST OFFERED
+             suite, from the ServerHello on the selected one — names `selR`: the tool's Early keys are the client's
+             (`afterTls_early`); when it names ANOTHER known suite the packet is not only lost but poisons the client's
+             application packet-number space (`zero_rtt_rejected_poisons_pn`); when it is unset the packet is dropped
+             (`zero_rtt_dropped_without_key`);
+    the rest as for the other packets: RFC 9000 §17.2.3 shape, §12.4 frames (no CRYPTO), packet number in the window of the
+    application space (shared with 1-RTT), header protection with the early key. -/
+structure ZrPkOk (L : SealLaws Pc) (selR : SuiteSel) (e : Bytes) (t : Trk) (q : PkH) : Prop where
+  suite : t.core.msgs.ciphersuite.bind selectSuite = some selR
+  shape : ZrShape q.x
+  frames : ∀ f ∈ q.x.frames, isCryptoQ f = false
+  wf : WellFormedSeq q.x.frames
+  pn : PnLenOk t.tc.app q.x.pn q.x.pnLen
+  mask : maskFn (chachaOf t.core) (quicHp (hashOf H selR.hash) e selR.keyLen)
+    (longOf q.x (protectedPayload L.aeadSeal selR.alg (earlyDec H selR e).client q.x)).sample = some q.mask
+  mask5 : 5 ≤ q.mask.length
+
+def ZrPks (L : SealLaws Pc) (selR : SuiteSel) (e : Bytes) : Trk → List PkH → Prop
+  | _, [] => True
+  | t, q :: qs => ZrPkOk maskFn H Pc L selR e t q ∧ ZrPks L selR e (t.zr q.x) qs
+
+/-- one datagram with 0-RTT packets, relative to the bookkeeping before it: `MixDgOk` for the rest, `ZrPkOk` for the 0-RTT
+    packets where they stand -/
+structure XDgOk (L : SealLaws Pc) (dcid0 : Bytes) (sel selR : SuiteSel) (sh ch sa ca e : Bytes) (t : Trk) (d : DgX) : Prop where
+  client : d.zr ≠ [] → d.base.srv = false
+  dir : ∀ q ∈ d.base.longs ++ d.zr, q.x.srv = d.base.srv ∧ q.x.ts = d.base.ts
+  cid : DcidOk t.cc t.sc d.base.srv d.dcid
+  pre : HsPks maskFn H Pc L dcid0 sel sh ch t (d.base.longs.take d.pos)
+  zr : ZrPks maskFn H Pc L selR e (t.run (d.base.longs.take d.pos)) d.zr
+  post : HsPks maskFn H Pc L dcid0 sel sh ch (d.zr.foldl (fun t q => t.zr q.x) (t.run (d.base.longs.take d.pos)))
+    (d.base.longs.drop d.pos)
+  nonempty : d.base.longs ≠ [] ∨ d.zr ≠ [] ∨ d.base.short.isSome = true
+  short : ∀ o, d.base.short = some o → ShortOk maskFn H Pc L sel sa ca
+    ((d.zr.foldl (fun t q => t.zr q.x) (t.run (d.base.longs.take d.pos))).run (d.base.longs.drop d.pos)) d.base o
+
+def XDgs (L : SealLaws Pc) (dcid0 : Bytes) (sel selR : SuiteSel) (sh ch sa ca e : Bytes) : Trk → List DgX → Prop
+  | _, [] => True
+  | t, d :: ds => XDgOk maskFn H Pc L dcid0 sel selR sh ch sa ca e t d ∧ XDgs L dcid0 sel selR sh ch sa ca e (t.dgx d) ds
+
+def xFeedAll (QM : MainLoop.QuicMachine Keylog.Key QConn Pipeline.OutPkt) (c : QConn) :
+    List (List Keylog.Key × MainLoop.Pkt × DgX) → QConn
+  | [] => c
+  | (kl, p, d) :: rest => xFeedAll QM (QM.feed c kl p d.dcid d.ver) rest
+
+/-- the STREAM data of a datagram: of its 0-RTT packets, then of its 1-RTT packet -/
+def DgX.data (d : DgX) : List Bytes :=
+  d.zr.flatMap (fun q => streamData q.x.frames) ++ (d.base.short.map fun o => streamData o.x.frames).getD []
+
+/-- one UDP frame per datagram with STREAM data (0-RTT or 1-RTT), then the 1-RTT-only part -/
+def expectedOutX (c : QConn) (ds : List DgX) (bs : List Dg1) : List Pipeline.OutPkt :=
+  ((ds.filter fun d => !d.data.isEmpty).map fun d => addressed c ⟨d.base.srv, d.base.ts, d.data.flatten⟩) ++
+    expectedOut c bs
+
+/-- **C02 with 0-RTT, the full statement** (`quic_connection_exact_interleaved` with 0-RTT packets anywhere in the mixed
+    part, under `ZrPkOk`). NOT PROVED: `quic_connection_exact_0rtt_partial` proves the step for one 0-RTT packet right after
+    the firing `handle_crypto_frame`; missing is `EarlyKeyed` as part of the handshake invariant `HsSt` along the history.
+    The condition `ZrPkOk.suite` is NOT implied by the RFCs before the ServerHello (first offered suite = resumed suite;
+    ClientHello complete): `ExZr.zero_rtt_first_offered_suite_counterexample`, `ExZr.zero_rtt_before_client_hello_counterexample`,
+    `harness/c02_0rtt_replay.py`. -/
+def quic_connection_exact_0rtt_statement : Prop :=
+  ∀ (hl : H.Lawful) (h32 : H.sha256.outLen = 32) (L : SealLaws Pc)
+    (cr csel ch sh ca sa e : Bytes) (sel selR : SuiteSel) (hsel : selectSuite csel = some sel)
+    (ho : (hashOf H sel.hash).outLen < 65536)
+    (hsa : sa.length = (hashOf H sel.hash).outLen) (hca : ca.length = (hashOf H sel.hash).outLen)
+    (kl0 : List Keylog.Key) (p0 : MainLoop.Pkt) (d0 : DgX) (itemsA : List (List Keylog.Key × MainLoop.Pkt × DgX))
+    (hkl : ∀ x ∈ (kl0, p0, d0) :: itemsA, KeylogHas x.1 cr ch sh ca sa (some e))
+    (c : QConn) (hc : Fresh H Pc c) (hd0 : d0.base.longs.take d0.pos ≠ [])
+    (hok : XDgs maskFn H Pc L d0.dcid sel selR sh ch sa ca e trk0 (d0 :: itemsA.map (·.2.2)))
+    (htr : PTrace cr csel {} (allInsM ((d0 :: itemsA.map (·.2.2)).map (·.base))))
+    (hcar : ∀ x ∈ (kl0, p0, d0) :: itemsA,
+      x.2.1.payload = DgX.wire H Pc L d0.dcid sel selR sh ch sa ca e x.2.2 ∧
+        (info x.2.1.tag).ts = x.2.2.base.ts ∧ (x.2.1.src == c.client) = !x.2.2.base.srv)
+    (hkeyed : ((d0 :: itemsA.map (·.2.2)).foldl Trk.dgx trk0).keyed = true)
+    (itemsB : List (List Keylog.Key × MainLoop.Pkt × Dg1))
+    (hcarB : ∀ x ∈ itemsB, Carries info c
+      (wireOf H Pc L sel .v1 (rfcGen (hashOf H sel.hash) sel.keyLen sa ca 0)) x.2.1 x.2.2)
+    (hsend : Send1 maskFn H Pc L sel .v1 (rfcGen (hashOf H sel.hash) sel.keyLen sa ca 0)
+      (quicHp (hashOf H sel.hash) ca sel.keyLen) (quicHp (hashOf H sel.hash) sa sel.keyLen)
+      (chachaOf ((d0 :: itemsA.map (·.2.2)).foldl Trk.dgx trk0).core) 0 0
+      ((d0 :: itemsA.map (·.2.2)).foldl Trk.dgx trk0).tc.app ((d0 :: itemsA.map (·.2.2)).foldl Trk.dgx trk0).ts.app
+      ((d0 :: itemsA.map (·.2.2)).foldl Trk.dgx trk0).cc ((d0 :: itemsA.map (·.2.2)).foldl Trk.dgx trk0).sc
+      (itemsB.map (·.2.2)))
+    (hadj : Quic.UdpOut.AdjDistinct ((((d0 :: itemsA.map (·.2.2)).filter fun d => !d.data.isEmpty).map
+        fun d => (d.base.ts, d.base.srv)) ++
+      ((itemsB.map (·.2.2)).filter fun d => hasStream d.x.frames).map fun d => (d.x.ts, d.x.srv))),
+    let QM := quicMachine maskFn H Pc info
+    let c1 := xFeedAll QM c ((kl0, p0, d0) :: itemsA)
+    (feedAll QM c1 itemsB).raised = none ∧
+    QM.out false (feedAll QM c1 itemsB) = expectedOutX c (d0 :: itemsA.map (·.2.2)) (itemsB.map (·.2.2))
+
+end ZeroRttStatement
 end TLX.Props.C02Capstone3
